@@ -89,13 +89,16 @@ Qed.
 
 Lemma invR_step s e : InvR s -> InvR (req_step s e).
 Proof.
-  intros [Hn Hlt]. destruct e as [cb ok|q is_exc]; cbn.
+  intros [Hn Hlt]. destruct e as [cb ok|q is_exc|q g]; cbn.
   - destruct ok; split; cbn.
     + constructor; [|exact Hn]. intros X. apply Hlt in X. lia.
     + intros q [<-|X]; [lia|apply Hlt in X; lia].
     + exact Hn.
     + intros q X. apply Hlt in X. lia.
   - destruct (find_key q (callbacks s)); [|split; assumption]. split; cbn.
+    + now apply remove_key_nodup.
+    + intros x X. apply remove_key_keys in X. now apply Hlt.
+  - destruct g; [|split; assumption]. destruct (find_key q (callbacks s)); [|split; assumption]. split; cbn.
     + now apply remove_key_nodup.
     + intros x X. apply remove_key_keys in X. now apply Hlt.
 Qed.
@@ -139,18 +142,30 @@ Proof.
   assert (Hgone : find_key q (remove_key q (callbacks s)) = None).
   { clear. induction (callbacks s) as [|[a b] t IH]; cbn; [reflexivity|]. destruct (Z.eqb_spec a q); cbn; [exact IH|].
     destruct (Z.eqb_spec a q); [contradiction|exact IH]. }
-  cbn [req_step]. rewrite E. destruct e as [cb' ok|q' e']; cbn.
-  - destruct ok; cbn; [|exact Hgone]. destruct (Z.eqb_spec (next_seq s) q); [lia|exact Hgone].
-  - destruct (find_key q' (remove_key q (callbacks s))) eqn:E2; cbn; [|exact Hgone].
-    clear -Hgone. induction (remove_key q (callbacks s)) as [|[a b] t IH]; cbn in *; [reflexivity|].
+  assert (Hrm : forall q', find_key q (remove_key q' (remove_key q (callbacks s))) = None).
+  { intros q'. clear -Hgone. induction (remove_key q (callbacks s)) as [|[a b] t IH]; cbn in *; [reflexivity|].
     destruct (Z.eqb_spec a q'); cbn.
     + destruct (Z.eqb_spec a q); [discriminate|]. apply IH. exact Hgone.
-    + destruct (Z.eqb_spec a q); [discriminate|]. apply IH. exact Hgone.
+    + destruct (Z.eqb_spec a q); [discriminate|]. apply IH. exact Hgone. }
+  cbn [req_step]. rewrite E. destruct e as [cb' ok|q' e'|q' g]; cbn.
+  - destruct ok; cbn; [|exact Hgone]. destruct (Z.eqb_spec (next_seq s) q); [lia|exact Hgone].
+  - destruct (find_key q' (remove_key q (callbacks s))) eqn:E2; cbn; [|exact Hgone]. apply Hrm.
+  - destruct g; cbn; [|exact Hgone]. destruct (find_key q' (remove_key q (callbacks s))) eqn:E2; cbn; [|exact Hgone]. apply Hrm.
 Qed.
+
+(* a response that cannot be rebuilt here: guarded, it is routed exactly like an exception response to the same request; unguarded,
+   nothing at the requester changes - the request's callback stays registered (and the error escapes the serving loop) *)
+Theorem undecodable_response s q : req_step s (EUndecodable q true) = req_step s (EResponse q true)
+  /\ req_step s (EUndecodable q false) = s.
+Proof. split; cbn; [destruct (find_key q (callbacks s)); reflexivity|reflexivity]. Qed.
 
 (* sequence numbers never repeat: the counter only grows and every registration uses the current value *)
 Theorem seq_monotone s e : (next_seq s <= next_seq (req_step s e))%Z.
-Proof. destruct e; cbn; [lia|]. destruct (find_key seq (callbacks s)); cbn; lia. Qed.
+Proof.
+  destruct e as [cb ok|q x|q g]; cbn; [lia| |].
+  - destruct (find_key q (callbacks s)); cbn; lia.
+  - destruct g; [|lia]. destruct (find_key q (callbacks s)); cbn; lia.
+Qed.
 
 (* a failed send leaves no dangling registration *)
 Theorem send_failure_unregisters s cb : callbacks (req_step s (ERequest cb false)) = callbacks s.
